@@ -112,6 +112,17 @@ Theorem c06_cancelled_waiter_cancel_task : forall k s t,
 Proof. exact cancel_task_waiting. Qed.
 Print Assumptions c06_cancelled_waiter_cancel_task.
 
+(* the window of Server.CancelRequest on a call queued in the semaphore *)
+Theorem c06_cancelled_waiter_cancel_step : forall s n n' id k t s' os,
+  find_op n (ops s) = Some (OpCancel n' id) -> assoc id (used s) = Some k ->
+  nth_error (tasks s) k = Some t -> t_st t = TWaiting ->
+  step s (LRelCancel n) = Some (s', os) ->
+  (forall p c, ~ In (OStart p c) os) /\
+  nth_error (tasks s') k = Some (t <| t_cancelled := true |> <| t_st := TDone (Some cancel_err) |>) /\
+  ~ In k (sem_wait s') /\ sem_free s' = sem_free s.
+Proof. exact cancel_waiter_step. Qed.
+Print Assumptions c06_cancelled_waiter_cancel_step.
+
 (* a task cancelled before Acquire fails at Acquire: no handler entry, no slot taken *)
 Theorem c06_cancelled_waiter_acquire : forall s k t s' os,
   nth_error (tasks s) k = Some t -> t_st t = TAtAcquire -> t_cancelled t = true ->
